@@ -767,6 +767,17 @@ class Models:
         mark_bytes(ip.ctx, r)
         return r
 
+    def sq_isascii(self, ip, c):
+        """bytes/bytearray.isascii(): every item below 128 (two-way branch on the quantified condition)"""
+        v = c.v if isinstance(c, Cell) else c
+        if v.pycls not in (bytes, bytearray):
+            py_raise(AttributeError, "'%s' object has no attribute 'isascii'" % v.pycls.__name__)
+        e = v.e
+        n = z3.Length(e)
+        pos = dsl.All(0, n, lambda k: e[k] < 128)
+        neg = dsl.Ex(0, n, lambda k: e[k] >= 128)
+        return ip.ctx.branch_clause(pos, neg)
+
     def sq_decode(self, ip, c, *args):
         cs = args[0] if args else 'utf-8'
         v = c.v if isinstance(c, Cell) else c
